@@ -1413,9 +1413,14 @@ func parseBasicLiteral(typ ast.LiteralType, s string) (constant, error) {
 		if n.IsInf() {
 			return nil, fmt.Errorf("constant too large: %s", s)
 		}
-		if n.MinPrec() < 53 {
-			f, _ := n.Float64()
-			return float64Const(f), nil
+		if n.Acc() == big.Exact && n.MinPrec() < 53 {
+			// Use the float64 implementation only if the literal is exactly
+			// representable: a mantissa longer than the parsing precision is
+			// rounded to a short one, and a short mantissa with an exponent
+			// out of the float64 range would become 0 or an infinity.
+			if f, acc := n.Float64(); acc == big.Exact {
+				return float64Const(f), nil
+			}
 		}
 		const maxExp = 4 << 10
 		if e := n.MantExp(nil); -maxExp < e && e < maxExp {
